@@ -300,11 +300,18 @@ func genC01(r *vc.Run) {
 					class = "short-R"
 					if di%3 == 2 {
 						// choose the digest so that s = k(m + r x) is a small number: m = s k^-1 - r x
+						// (every other time: exactly at the low-S boundary, (q-1)/2 or (q-1)/2 + 1)
 						st := g.below(pow2(240))
+						if (ci+di)%2 == 1 {
+							st = add(new(big.Int).Rsh(add(q, -1), 1), int64((ci+di)/2%2))
+						}
 						mm := new(big.Int).Mul(st, kinv)
 						mm.Sub(mm, new(big.Int).Mul(Rp.X(), x)).Mod(mm, q)
 						m = mm
 						class = "short-S"
+						if st.BitLen() > 250 {
+							class = "boundary-S"
+						}
 					}
 					break
 				}
@@ -326,6 +333,48 @@ func genC01(r *vc.Run) {
 				_ = s
 				r.Dist[fmt.Sprintf("recid=%d", sr.sigs[0].SignatureRecovery[0])]++
 			}
+		}
+	}
+	c01SlowLinks(r, g)
+}
+
+// c01SlowLinks: one message of one signer is held back until nothing else can be delivered (a slow link, or a broadcast channel
+// slower than the point-to-point one): the run must still complete with the predicted signature.
+func c01SlowLinks(r *vc.Run, g rng) {
+	q := tss.S256().Params().N
+	types := typesOf("ecdsa_signing")
+	keys, pids, _ := ecKeysByRef("fixture")
+	signers := []int{0, 1, 2}
+	sk, sp := pickKeys(keys, pids, signers)
+	ids, xs := make([]*big.Int, len(sp)), make([]*big.Int, len(sp))
+	for i := range sp {
+		ids[i], xs[i] = sp[i].KeyInt(), new(big.Int).Set(sk[i].Xi)
+	}
+	held := []string{"SignRound1Message2", "SignRound1Message1", "SignRound3Message", "SignRound4Message", "SignRound6Message", "SignRound8Message"}
+	if !r.Thorough() {
+		held = held[:3]
+	}
+	for hi, tn := range held {
+		ti := -1
+		for i, t := range types {
+			if t == tn {
+				ti = i
+			}
+		}
+		if ti < 0 {
+			continue
+		}
+		for _, to := range []string{"N0", ""} {
+			m := g.below(q)
+			kis, gs := make([]*big.Int, len(sp)), make([]*big.Int, len(sp))
+			for i := range kis {
+				kis[i], gs[i] = add(g.below(add(q, -1)), 1), add(g.below(add(q, -1)), 1)
+			}
+			args := []val.V{val.A("fixture"), idxInts(signers), val.Ints(kis), val.Ints(gs), val.I(m), val.I64(0), val.I64(0), val.Ints(ids), val.Ints(xs), pointV(sk[0].ECDSAPub)}
+			replay := fmt.Sprintf("%s with %s from N1 to %q held back until nothing else is deliverable", vc.Line("ecdsa_sign", args), tn, to)
+			obs, sr := runECDSASign("fixture", signers, kis, gs, m, 0, nil, sched.HoldBack(ti, "N1", to), r.Seed+int64(1000+hi))
+			r.Record("ecdsa_sign/slow-link/"+tn, true, "ecdsa_sign", args, obs)
+			ecdsaOracles(r, sr, toECDSAPub(sk[0]), m, 0, replay, nil)
 		}
 	}
 }
